@@ -32,7 +32,7 @@ impl<T: FileStore> SendTransaction<T> {
         &&& self.delivery_code == o.delivery_code && self.file_status == o.file_status
         &&& self.ack == o.ack && self.prompt == o.prompt && self.naks == o.naks
         &&& self.sent_file_size == o.sent_file_size && self.received_file_size == o.received_file_size
-        &&& self.metadata == o.metadata && self.send_eof_indication == o.send_eof_indication
+        &&& self.metadata == o.metadata && self.send_eof_indication == o.send_eof_indication && self.header == o.header
     }
 
     pub open spec fn same_except_state_timer(&self, o: Self) -> bool {
@@ -41,7 +41,7 @@ impl<T: FileStore> SendTransaction<T> {
         &&& self.delivery_code == o.delivery_code && self.file_status == o.file_status
         &&& self.ack == o.ack && self.prompt == o.prompt && self.naks == o.naks && self.eof == o.eof
         &&& self.sent_file_size == o.sent_file_size && self.received_file_size == o.received_file_size
-        &&& self.metadata == o.metadata && self.send_eof_indication == o.send_eof_indication
+        &&& self.metadata == o.metadata && self.send_eof_indication == o.send_eof_indication && self.header == o.header
     }
 }
 
@@ -103,6 +103,64 @@ pub fn vx_read_up_to(h: &mut File, n: u16) -> (r: TransactionResult<Vec<u8>>)
                     if file_pos(*old(h)) <= file_bytes(*old(h)).len() { file_pos(*old(h)) } else { file_bytes(*old(h)).len() as int },
                     if file_pos(*old(h)) + n <= file_bytes(*old(h)).len() { file_pos(*old(h)) + n } else if file_pos(*old(h)) <= file_bytes(*old(h)).len() { file_bytes(*old(h)).len() as int } else { file_bytes(*old(h)).len() as int })
         },
+{
+    unimplemented!()
+}
+
+// ---- C07 vocabulary
+pub open spec fn header_matches_config(h: PDUHeader, c: TransactionConfig) -> bool {
+    &&& h.version == U3::One
+    &&& h.transmission_mode == c.transmission_mode
+    &&& h.crc_flag == c.crc_flag
+    &&& h.large_file_flag == c.file_size_flag
+    &&& h.segment_metadata_flag == c.segment_metadata_flag
+    &&& h.source_entity_id == c.source_entity_id
+    &&& h.transaction_sequence_number == c.sequence_number
+    &&& h.destination_entity_id == c.destination_entity_id
+}
+
+impl<T: FileStore> SendTransaction<T> {
+    /// the cached header, if any, carries the configuration's identifiers and flags and points to the receiver
+    pub open spec fn header_from_config(&self) -> bool {
+        self.header.is_some() ==> (header_matches_config(self.header.unwrap(), self.config) && self.header.unwrap().direction == Direction::ToReceiver)
+    }
+
+    /// everything but the open file handle and the progress figure
+    pub open spec fn same_except_file_progress(&self, o: Self) -> bool {
+        &&& self.state == o.state && self.send_state == o.send_state && self.status == o.status
+        &&& self.timer == o.timer && self.condition == o.condition && self.config == o.config
+        &&& self.delivery_code == o.delivery_code && self.file_status == o.file_status
+        &&& self.ack == o.ack && self.prompt == o.prompt && self.naks == o.naks && self.eof == o.eof
+        &&& self.received_file_size == o.received_file_size && self.header == o.header
+        &&& self.metadata == o.metadata && self.send_eof_indication == o.send_eof_indication && self.checksum == o.checksum
+    }
+
+    pub open spec fn same_except_header(&self, o: Self) -> bool {
+        &&& self.state == o.state && self.send_state == o.send_state && self.status == o.status
+        &&& self.timer == o.timer && self.condition == o.condition && self.config == o.config
+        &&& self.delivery_code == o.delivery_code && self.file_status == o.file_status
+        &&& self.ack == o.ack && self.prompt == o.prompt && self.naks == o.naks && self.eof == o.eof
+        &&& self.sent_file_size == o.sent_file_size && self.received_file_size == o.received_file_size
+        &&& self.metadata == o.metadata && self.send_eof_indication == o.send_eof_indication
+    }
+}
+
+impl<T: FileStore> SendTransaction<T> {
+    pub open spec fn same_except_ack(&self, o: Self) -> bool {
+        &&& self.state == o.state && self.send_state == o.send_state && self.status == o.status
+        &&& self.timer == o.timer && self.condition == o.condition && self.config == o.config
+        &&& self.prompt == o.prompt && self.naks == o.naks && self.eof == o.eof && self.header == o.header
+        &&& self.sent_file_size == o.sent_file_size && self.metadata == o.metadata
+    }
+}
+
+/// std: File::metadata()?.len() "Returns the size of the file, in bytes"
+#[verifier::external_body]
+pub fn vx_file_len(h: &mut File) -> (r: TransactionResult<u64>)
+    ensures
+        file_bytes(*final(h)) == file_bytes(*old(h)),
+        file_pos(*final(h)) == file_pos(*old(h)),
+        r matches Ok(n) ==> n == file_bytes(*old(h)).len(),
 {
     unimplemented!()
 }
